@@ -3,6 +3,7 @@ import CogentModel.Model.KV
 import CogentModel.Model.DataStore
 import CogentModel.Model.DataStoreSqlite
 import CogentModel.Spec.DataStoreDict
+import CogentModel.Spec.DataStoreSqlSafe
 open CogentModel CogentModel.KV CogentModel.DataStore
 
 /-! line protocol of the C13 driver: data travel as strings, the checksum function is the
@@ -135,6 +136,12 @@ def handle (cmd : String) (j : J) : Except String J :=
     let ops ← (← j.get "ops").toListOf parseOp
     pure (J.obj [("hyg", J.bool (DataStoreDict.hyg sfx ids)),
                  ("safe", J.bool (DataStoreDict.safeHist sfx ids (DataStoreDict.Dict.empty mode) ops))])
+  | "safe_sql" => do
+    -- hypotheses of `sqlite_store_refines_dict_partial` on a concrete history
+    let mode ← parseMode (← j.get "mode")
+    let ops ← (← j.get "ops").toListOf parseOp
+    pure (J.obj [("safe", J.bool (DataStoreSqlite.safeHistS id (DataStoreSqlite.Sql.create mode)
+      (DataStoreDict.Dict.empty mode) ops))])
   | "names" => do
     -- the naming layer on one identifier
     let sfx := (← (← j.get "sfx").toStr).toList
